@@ -165,9 +165,9 @@ def catalogue(obj, spec, rnd):
                 envget = (lambda r, k=k: [get_mod(r).volume_envelope, get_mod(r).panning_envelope, get_mod(r).pitch_envelope][k] if k < 3
                           else get_mod(r).effect_control_envelopes[k - 3])
                 lo, hi = ((0, 32768) if k in (0, 3, 4, 5, 6) else (-16384, 16384))
-                if e["points"]:
+                if e["points"] and (k < 2 or rnd.random() < 0.5):      # (volume and panning envelopes always: they have a legacy twin in the header)
                     i = rnd.randrange(len(e["points"]))
-                    np_ = [e["points"][i][0], rnd.choice([y for y in (lo, hi, (lo + hi) // 2 + 512) if y != e["points"][i][1]])]
+                    np_ = [e["points"][i][0], rnd.choice([y for y in (lo + 1, hi - 3, (lo + hi) // 2 + 517, (lo + hi) // 2 - 101) if y != e["points"][i][1]])]
                     add("payload.envelope-point", pb + ["envs", k + 1, "points", i + 1],
                         lambda r, g=envget, i=i, np_=np_: g(r).points.__setitem__(i, (np_[0], np_[1])), np_, e["points"][i])
                 v = 1 - e["enable"]
@@ -184,6 +184,29 @@ def catalogue(obj, spec, rnd):
                 add("payload.sample-field", pb + ["samples", si + 1, 1, "panning"], lambda r, si=si, v=v: setattr(get_mod(r).samples[si], "panning", v), v, s["panning"])
                 v = rnd.choice([x for x in (8000, 44100, 96000) if L(x) != s["rate"]])
                 add("payload.sample-field", pb + ["samples", si + 1, 1, "rate"], lambda r, si=si, v=v: setattr(get_mod(r).samples[si], "rate", v), L(v), s["rate"])
+            # the PCM bytes / format / channel count of an existing sample (the frame count follows the data)
+            import copy as _copy
+            live = get_mod(obj) if not pl.get("is_legacy") else None
+            for si, s in enumerate(pl["samples"]):
+                if not s or live is None or live.samples[si] is None or rnd.random() < 0.5:
+                    continue
+                for what in ("data", "format", "channels"):
+                    tmp = _copy.deepcopy(live.samples[si])
+                    if what == "data":
+                        nd = bytes(rnd.randrange(256) for _ in range(rnd.choice([0, 4, 8, 24, len(tmp.data) + 8])))
+                        if nd == tmp.data:
+                            continue
+                        tmp.data = nd
+                        fn = lambda r, si=si, nd=nd: setattr(get_mod(r).samples[si], "data", nd)
+                    elif what == "format":
+                        nf = rnd.choice([f for f in S.Format if f != tmp.format])
+                        tmp.format = nf
+                        fn = lambda r, si=si, nf=nf: setattr(get_mod(r).samples[si], "format", nf)
+                    else:
+                        nc = rnd.choice([c_ for c_ in S.Channels if c_ != tmp.channels])
+                        tmp.channels = nc
+                        fn = lambda r, si=si, nc=nc: setattr(get_mod(r).samples[si], "channels", nc)
+                    add("payload.sample-" + what, pb + ["samples", si + 1], fn, projection.sample(tmp), pl["samples"][si])
             used = [si for si, s_ in enumerate(pl["samples"]) if s_]
             free = [si for si, s_ in enumerate(pl["samples"]) if not s_]
             if len(used) >= 2:          # emptying a slot that is not the last used one leaves a gap; the others stay where they are
@@ -225,6 +248,13 @@ def catalogue(obj, spec, rnd):
                 i = rnd.randrange(na)
                 lb = rnd.choice(["cutoff", "Ré", "a b"])
                 add("payload.meta-label", pb + ["labels", i + 1], lambda r, i=i, lb=lb: setattr(get_mod(r).user_defined[i], "label", lb), [B(lb)], pl["labels"][i])
+            if na:               # the MIDI binding of a user-defined controller
+                i = rnd.randrange(na)
+                nv = [rnd.randrange(1, 9), rnd.randrange(17), rnd.randrange(6), rnd.randrange(65536)]
+                def setud(r, i=i, nv=nv):
+                    mm_ = get_mod(r).controller_midi_maps["user_defined_%d" % (i + 1)]
+                    mm_.message_type, mm_.channel, mm_.slope, mm_.message_parameter = MidiMessageType(nv[0]), nv[1], Slope(nv[2]), nv[3]
+                add("payload.meta-user-controller-midi-binding", pb + ["udcmid", i + 1], setud, nv, pl["udcmid"][i])
             project_leaves(lambda r: get_mod(r).project, pl["project"], pb + ["project"], nested=True)
 
     def project_leaves(get_p, po, base, nested=False):
@@ -299,7 +329,7 @@ def run(ctx):
     cl = gen.classes()
     for i in range(8 if q else 120):
         sources.append(("gen%d.sunvox" % i, gen.rand_project(rnd, spec, depth=rnd.choice([0, 1, 2]), small=True).read()))
-    for k in range(4 if q else 40):
+    for k in range(8 if q else 60):
         sources.append(("gen-sampler%d.sunsynth" % k, api.Synth(gen.rand_module(rnd, cl["Sampler"], spec, depth=1, in_project=False)).read()))
         sources.append(("gen-meta%d.sunsynth" % k, api.Synth(gen.rand_module(rnd, cl["MetaModule"], spec, depth=2, in_project=False)).read()))
     for k in range(3 if q else 30):     # payload-bearing types whose payload is only *used* under some controller values
